@@ -1018,6 +1018,7 @@ class Evaluator:
             for s in fn.blocks[b]["stmts"]:
                 if s["s"] == "assign" and s.get("rv") == "ref" and s.get("bk", "").startswith("Mut"):
                     assigned.add(s["pl"]["l"])
+        pre = dict(env)
         for l in assigned:
             cur = env.get(l)
             if cur is not None and cur[0] == "mref":
@@ -1035,8 +1036,49 @@ class Evaluator:
             exits.insert(0, ne)
         v2 = dict(visits)
         v2[head] = 1
+        # ways out other than the normal exit: when the function returns an error on every path that leaves the loop there
+        # (decided with the environment the path really has, not the havocked one), that arm is just that error
+        err_arm = {}
+        if len(exits) > 1 and self._nest < 6:
+            try:
+                sub = Evaluator(self.prog, inline_depth=self.inline_depth, opaque_local=self.opaque_local)
+                sub.models, sub.const_models = self.models, self.const_models
+                sub.summarize_loops = True
+                asg0 = set(assigned)
+                env0 = {l: v for l, v in pre.items() if l not in asg0}
+                for l in asg0:
+                    v = pre.get(l)
+                    if v is not None and v[0] == "adt" and v[1] == "core::ops::range::Range":
+                        env0[l] = adt(v[1], v[2], (("start", P("I%d" % head)), ("end", fld(v, "end"))))     # some iteration of a range loop
+                tree = sub.eval_loop_body(fn, head, set(body), (), env0)
+                is_err = lambda x: isinstance(x, tuple) and len(x) > 2 and x[0] == "adt" and x[1] == "core::result::Result" and x[2] == "Err"
+                allerr = True
+                for lf in _leaves(tree, []):
+                    if not (isinstance(lf, tuple) and lf):
+                        allerr = False
+                    elif lf[0] == "next" or lf == ("unreachable",) or (lf[0] == "exit" and lf[1] == exits[0]):
+                        continue
+                    elif lf[0] == "exit":
+                        v = lf[2] if len(lf) >= 3 else None
+                        lv = [x for x in _leaves(v, []) if x != ("unreachable",)] if v is not None else []
+                        if not lv or not all(is_err(x) for x in lv):
+                            allerr = False
+                    elif not is_err(lf):          # an inner loop's error arm shows up as the returned error itself
+                        allerr = False
+                if allerr:
+                    for e in exits[1:]:
+                        err_arm[e] = err(("loop_error", fn.path, head, e))
+            except Undecided as ex:
+                if _os.environ.get("NX_DEBUG"):
+                    print("DEBUG _skip_loop error-arm analysis undecided:", fn.path, head, ex)
+                err_arm = {}
+            if _os.environ.get("NX_DEBUG"):
+                print("DEBUG _skip_loop", fn.path.split("::")[-1], "head", head, "exits", exits, "err_arm", sorted(err_arm))
         arms = []
         for i, e in enumerate(exits):
+            if e in err_arm:
+                arms.append((((i, i),), err_arm[e]))
+                continue
             arms.append((((i, i),), self._run(fn, e, dict(env), v2, depth, until)))
         if len(arms) == 1:
             return arms[0][1]
@@ -1216,7 +1258,7 @@ class Evaluator:
                 ty = self._int_ty(t)
                 env[args[0][1]] = adt(cur[1], cur[2], (("start", ite(c, binop("Add", lo, C(1, ty), ty), lo)), ("end", hi)))
                 return ite(c, some(lo), NONE)
-            raise Undecided("Range::next on a value that is not a Range aggregate")
+            raise Undecided("Range::next on a value that is not a Range aggregate (local %s = %r)" % (args[0][1], cur[:3]))
         if len(args) == 2 and args[0][0] == "mref" and _re.search(r"core::ops::arith::(Add|Sub|Mul|Div)Assign(<.*>)?>::(add|sub|mul|div)_assign$", name):
             # `x op= y` through the operator trait is `x = x op y`
             cur = self._mref_get(env, args[0])
